@@ -122,10 +122,10 @@ type tracer struct {
 	childDone  bool
 	childMarks []uint64
 	// a frame's remaining gas must never grow from one of its steps to the next
-	lastGas  map[int]uint64
-	gasGrew  string
+	lastGas map[int]uint64
+	gasGrew string
 	// a step is executed only after its cost has been taken from the frame's gas
-	unpaid string
+	unpaid   string
 	stepCap  int
 	prevDeep int
 }
